@@ -247,30 +247,6 @@ func errNonNil(pkgFuncs []*ssa.Function, v ssa.Value) bool {
 	return good && n == 1
 }
 
-// producedTypes: the dynamic types of result #0 on the returns of producer p
-// that are reachable when its selector parameter equals k and whose error
-// result may be nil. ok=false when a result's dynamic type is not static.
-func producedTypes(pkgFuncs []*ssa.Function, prod *ssa.Function, sel *ssa.Parameter, k int64) (ts []types.Type, ok bool) {
-	cut := cutForValue(prod, sel, k)
-	ok = true
-	for _, in := range reachableUnder(prod, cut, core.IsReturn) {
-		ret := in.(*ssa.Return)
-		if len(ret.Results) != 2 {
-			return nil, false
-		}
-		if errNonNil(pkgFuncs, core.Result(ret, 1)) {
-			continue
-		}
-		v := core.Result(ret, 0)
-		mi, isMI := v.(*ssa.MakeInterface)
-		if !isMI {
-			return nil, false
-		}
-		ts = append(ts, mi.X.Type())
-	}
-	return
-}
-
 // fieldStoresInto collects, for a fresh struct allocation, the value stored to
 // each field index, and the source of a whole-struct copy into it (if any).
 func fieldStoresInto(al *ssa.Alloc) (fields map[int]ssa.Value, whole ssa.Value) {
@@ -441,11 +417,18 @@ func c05(r *core.Run) {
 	// ------------------------------------------------------------------ D2
 	// candidates for the converter/setter table: functions with a reflect.Kind
 	// parameter that assert a parameter of interface type without comma-ok.
+	// A setter may also keep its per-kind bodies as functions in a constant table
+	// keyed by the kind: then the assertion sits in a table entry, and the setter is
+	// the dispatcher that looks the entry up and hands its `any` parameter on.
 	type tableUse struct {
-		fn  *ssa.Function
-		ta  *ssa.TypeAssert
-		sel *ssa.Parameter
+		fn    *ssa.Function // the setter (the function with the reflect.Kind parameter)
+		ta    *ssa.TypeAssert
+		sel   *ssa.Parameter
+		v     *ssa.Parameter // the setter's parameter that is asserted
+		entry *ssa.Function  // the table entry holding ta (nil: ta is in fn itself)
+		q     *ssa.Call      // the setter's call of the entry looked up
 	}
+	kindEval := newC05KindEval(p.SSA)
 	var tableUses []tableUse
 	var plainAsserts []struct {
 		fn *ssa.Function
@@ -460,9 +443,16 @@ func c05(r *core.Run) {
 		}) {
 			ta := in.(*ssa.TypeAssert)
 			nAsserts++
-			if _, isParam := ta.X.(*ssa.Parameter); isParam && sel != nil {
-				tableUses = append(tableUses, tableUse{f, ta, sel})
+			if pa, isParam := ta.X.(*ssa.Parameter); isParam && sel != nil {
+				tableUses = append(tableUses, tableUse{fn: f, ta: ta, sel: sel, v: pa})
 				continue
+			} else if isParam {
+				if ds, ok := kindEval.dispatchersOf(f, paramIndex(f, pa)); ok {
+					for _, d := range ds {
+						tableUses = append(tableUses, tableUse{fn: d.d, ta: ta, sel: d.sel, v: d.v, entry: f, q: d.q})
+					}
+					continue
+				}
 			}
 			plainAsserts = append(plainAsserts, struct {
 				fn *ssa.Function
@@ -538,7 +528,7 @@ func c05(r *core.Run) {
 				o.Fail(p.Pos(f.Pos()), "%s: callers cannot be enumerated (used as a value: %v, call sites: %d)", core.FuncName(f), esc, len(sites))
 				continue
 			}
-			vIdx, kIdx := paramIndex(f, u.ta.X.(*ssa.Parameter)), paramIndex(f, u.sel)
+			vIdx, kIdx := paramIndex(f, u.v), paramIndex(f, u.sel)
 			for _, cs := range sites {
 				g := cs.Parent()
 				r.Fn(core.FuncName(g))
@@ -569,25 +559,39 @@ func c05(r *core.Run) {
 		}
 		for _, u := range tableUses {
 			for _, pr := range prodOf[u.fn] {
-				var pkgFuncs []*ssa.Function
-				if pr.prod.Pkg != nil {
-					pkgFuncs = core.SSAPkgFuncs(p.SSA, pr.prod.Pkg)
-				}
 				r.Fn(core.FuncName(pr.prod))
 				for k := int64(0); k < 32; k++ {
-					cut := cutForValue(u.fn, u.sel, k)
-					if _, ok := core.Reach(core.Q{From: []core.At{core.Entry(u.fn)}, Target: core.Is(u.ta), Cut: cut}); !ok {
-						continue
+					cut := kindEval.cut(u.fn, u.sel, k)
+					if u.entry == nil {
+						if _, ok := core.Reach(core.Q{From: []core.At{core.Entry(u.fn)}, Target: core.Is(u.ta), Cut: cut}); !ok {
+							continue
+						}
+					} else {
+						// the assertion sits in a table entry: is that the entry called for this kind?
+						if _, ok := core.Reach(core.Q{From: []core.At{core.Entry(u.fn)}, Target: core.Is(u.q), Cut: cut}); !ok {
+							continue
+						}
+						callee, ok := kindEval.value(u.q.Call.Value, u.sel, k, 0)
+						if !ok {
+							o.Fail(posOf(u.q), "kind %d: the table entry %s calls (%s) cannot be resolved", k, core.FuncName(u.fn), core.Describe(u.q.Call.Value))
+							continue
+						}
+						if fn, isFn := callee.(*ssa.Function); !isFn || fn != u.entry {
+							continue // another entry, or none (a nil function: the call panics before any assertion)
+						}
 					}
-					ts, ok := producedTypes(pkgFuncs, pr.prod, pr.prodSel, k)
-					if !ok {
-						o.Fail(posOf(u.ta), "kind %d: the dynamic type produced by %s is not static", k, core.FuncName(pr.prod))
+					// evaluated per kind: a switch / if chain over the kind, or a lookup of the
+					// kind in a constant table of converter functions, in the converter itself
+					// or in the function it delegates to
+					ts, why := kindEval.produced(pr.prod, pr.prodSel, k, 0)
+					if why != "" {
+						o.Fail(posOf(u.ta), "kind %d: the dynamic type produced by %s is not static: %s", k, core.FuncName(pr.prod), why)
 						continue
 					}
 					o.Site(1)
 					for _, t := range ts {
 						if !types.Identical(t, u.ta.AssertedType) {
-							o.Fail(posOf(u.ta), "kind %d: %s produces %s but %s asserts %s: the assertion panics", k, core.FuncName(pr.prod), t, core.FuncName(u.fn), u.ta.AssertedType)
+							o.Fail(posOf(u.ta), "kind %d: %s produces %s but %s asserts %s: the assertion panics", k, core.FuncName(pr.prod), t, core.FuncName(u.ta.Parent()), u.ta.AssertedType)
 						}
 					}
 				}
@@ -748,64 +752,151 @@ func c05(r *core.Run) {
 		recv, fn   string
 		validators []string
 		sink       func(ssa.Instruction) bool
+		rowSinks   []string // calls of the functions anchored by these rows are sinks too
 		sinkName   string
 	}
 	d4 := []d4row{
-		{"Unmarshaler", "processFieldPrimitiveWithJSONNumber", []string{"validateJsonNumberRange", "validateValueInOptions"}, isReflectSet, "reflect Set*"},
-		{"", "fillPrimitive", []string{"validateJsonNumberRange"}, mp("setValue", "setMatchedPrimitiveValue"), "setValue"},
-		{"", "fillWithSameType", []string{"validateValueRange"}, core.Or(isReflectSet, mp("setSameKindValue")), "setSameKindValue / reflect Set*"},
-		{"", "validateAndSetValue", []string{"validateValueRange"}, core.Or(isReflectSet, mp("setMatchedPrimitiveValue")), "setMatchedPrimitiveValue"},
-		{"Unmarshaler", "processFieldPrimitive", []string{"validateValueInOptions"}, mp("fillWithSameType", "setSameKindValue"), "fillWithSameType"},
-		{"Unmarshaler", "processFieldWithEnvValue", []string{"validateValueInOptions"}, core.Or(isReflectSet, mp("fillDurationValue", "setValue", "(*Unmarshaler).processFieldPrimitiveWithJSONNumber")), "assignment of the environment value"},
+		{"Unmarshaler", "processFieldPrimitiveWithJSONNumber", []string{"validateJsonNumberRange", "validateValueInOptions"}, isReflectSet, nil, "reflect Set*"},
+		{"", "fillPrimitive", []string{"validateJsonNumberRange"}, mp("setValue", "setMatchedPrimitiveValue"), nil, "setValue"},
+		{"", "fillWithSameType", []string{"validateValueRange"}, core.Or(isReflectSet, mp("setSameKindValue")), nil, "setSameKindValue / reflect Set*"},
+		{"", "validateAndSetValue", []string{"validateValueRange"}, core.Or(isReflectSet, mp("setMatchedPrimitiveValue")), nil, "setMatchedPrimitiveValue"},
+		{"Unmarshaler", "processFieldPrimitive", []string{"validateValueInOptions"}, mp("setSameKindValue"), []string{"fillWithSameType"}, "fillWithSameType"},
+		{"Unmarshaler", "processFieldWithEnvValue", []string{"validateValueInOptions"}, core.Or(isReflectSet, mp("fillDurationValue", "setValue")), []string{"processFieldPrimitiveWithJSONNumber"}, "assignment of the environment value"},
+	}
+	// Each row is anchored by the name of the function in the pinned tree and, when
+	// that name is gone (the function was renamed or became a method of another
+	// type), by role: the functions of the package that run all of the row's
+	// validators and contain one of its sinks (functions that are another row's by
+	// name are left to that row). Rows are resolved in order; a row's sinks may
+	// refer to the functions an earlier row resolved to.
+	d4Named := map[*ssa.Function]bool{}
+	for _, row := range d4 {
+		if f := p.Func(mapPkg, row.recv, row.fn); f != nil {
+			d4Named[f] = true
+		}
+	}
+	d4Funcs := map[string][]*ssa.Function{}
+	d4Sink := map[string]func(ssa.Instruction) bool{}
+	for _, row := range d4 {
+		row := row
+		sink := row.sink
+		for _, rs := range row.rowSinks {
+			targets := d4Funcs[rs]
+			sink = core.Or(sink, func(in ssa.Instruction) bool {
+				c := core.AsCall(in)
+				if c == nil {
+					return false
+				}
+				callee := staticCallee(c)
+				for _, t := range targets {
+					if callee == t {
+						return true
+					}
+				}
+				return false
+			})
+		}
+		d4Sink[row.fn] = sink
+		if f := p.Func(mapPkg, row.recv, row.fn); f != nil {
+			d4Funcs[row.fn] = []*ssa.Function{f}
+			continue
+		}
+		for _, g := range mapFuncs {
+			if d4Named[g] || len(core.Instrs(g, sink)) == 0 {
+				continue
+			}
+			all := true
+			for _, v := range row.validators {
+				if len(core.Calls(g, mp(v))) == 0 {
+					all = false
+				}
+			}
+			if all {
+				d4Funcs[row.fn] = append(d4Funcs[row.fn], g)
+			}
+		}
 	}
 	for _, row := range d4 {
 		row := row
+		row.sink = d4Sink[row.fn]
 		r.Check("D4/K2/validated-before-set/"+row.fn, fmt.Sprintf("in %s every %s is reachable only through the err == nil edge of %s", row.fn, row.sinkName, strings.Join(row.validators, " and of ")), func(o *core.O) {
-			f := p.Func(mapPkg, row.recv, row.fn)
-			if !o.Need(f != nil, mapPkg+"."+row.fn) {
+			fs := d4Funcs[row.fn]
+			if !o.Need(len(fs) > 0, mapPkg+"."+row.fn+" (or another function running "+strings.Join(row.validators, ", ")+" before "+row.sinkName+")") {
 				return
 			}
-			r.Fn(core.FuncName(f))
-			sinks := core.Instrs(f, row.sink)
-			o.Site(len(sinks), core.FuncName(f))
-			if len(sinks) == 0 {
-				o.Unres("%s contains no %s", core.FuncName(f), row.sinkName)
-				return
-			}
-			optsParam := paramOfType(f, isOptsCtx)
-			for _, v := range row.validators {
-				isV := mp(v)
-				calls := core.Calls(f, isV)
-				if len(calls) == 0 {
-					o.Fail(p.Pos(f.Pos()), "%s never calls %s: the tag's constraint is not enforced", core.FuncName(f), v)
+			for _, f := range fs {
+				r.Fn(core.FuncName(f))
+				sinks := core.Instrs(f, row.sink)
+				o.Site(len(sinks), core.FuncName(f))
+				if len(sinks) == 0 {
+					o.Unres("%s contains no %s", core.FuncName(f), row.sinkName)
 					continue
 				}
-				// the validator must be given this field's options
-				for _, c := range calls {
-					if optsParam == nil {
-						o.Unres("%s has no *fieldOptionsWithContext parameter", core.FuncName(f))
-						break
+				// the options of the field being assigned, as handed to f: its
+				// *fieldOptionsWithContext parameter, or that field of a parameter / receiver
+				// that bundles the field's context in a struct
+				var optsSrc func(ssa.Value) bool
+				if optsParam := paramOfType(f, isOptsCtx); optsParam != nil {
+					optsSrc = func(x ssa.Value) bool { return x == ssa.Value(optsParam) }
+				} else {
+					n := 0
+					for _, pa := range f.Params {
+						if c05HasOptsField(pa.Type(), isOptsCtx) {
+							n++
+						}
 					}
-					if !core.DependsOn(c.Common().Args[len(c.Common().Args)-1], func(x ssa.Value) bool { return x == ssa.Value(optsParam) }) {
-						o.Fail(posOf(c), "%s validates against %s, not against the field's options", core.FuncName(f), core.Describe(c.Common().Args[len(c.Common().Args)-1]))
+					if n == 1 {
+						optsSrc = func(x ssa.Value) bool {
+							pa, ok := x.(*ssa.Parameter)
+							return ok && c05HasOptsField(pa.Type(), isOptsCtx)
+						}
 					}
 				}
-				for _, s := range sinks {
-					if w := requiresX(f, core.Is(s), core.ErrNil(0, isV)); w != nil {
-						o.Fail(posOf(s), "%s: value assigned (%s) although %s was not run or its error is ignored: an out-of-range / not-listed value is accepted", core.FuncName(f), core.Short(core.CalleeName(s.(ssa.CallInstruction))), v)
+				for _, v := range row.validators {
+					isV := mp(v)
+					calls := core.Calls(f, isV)
+					if len(calls) == 0 {
+						o.Fail(p.Pos(f.Pos()), "%s never calls %s: the tag's constraint is not enforced", core.FuncName(f), v)
+						continue
+					}
+					// the validator must be given this field's options
+					for _, c := range calls {
+						if optsSrc == nil {
+							o.Unres("%s has no *fieldOptionsWithContext parameter", core.FuncName(f))
+							break
+						}
+						if !core.DependsOn(c.Common().Args[len(c.Common().Args)-1], optsSrc) {
+							o.Fail(posOf(c), "%s validates against %s, not against the field's options", core.FuncName(f), core.Describe(c.Common().Args[len(c.Common().Args)-1]))
+						}
+					}
+					for _, s := range sinks {
+						if w := requiresX(f, core.Is(s), core.ErrNil(0, isV)); w != nil {
+							o.Fail(posOf(s), "%s: value assigned (%s) although %s was not run or its error is ignored: an out-of-range / not-listed value is accepted", core.FuncName(f), core.Short(core.CalleeName(s.(ssa.CallInstruction))), v)
+						}
 					}
 				}
 			}
 		})
 	}
-	r.Check("D4/K2/validated-before-set/string-mode-options", "in processNamedFieldWithValue fillPrimitive is reachable only when the options list is empty or stringx.Contains(options, value) holds", func(o *core.O) {
-		f := p.Func(mapPkg, "Unmarshaler", "processNamedFieldWithValue")
-		if !o.Need(f != nil, mapPkg+".processNamedFieldWithValue") {
+	r.Check("D4/K2/validated-before-set/string-mode-options", "every call of fillPrimitive in lib/mapping that is given field options (fillPrimitive does not check the options list itself) is reachable only when the options list is empty or stringx.Contains(options, value) holds", func(o *core.O) {
+		// anchored by role: the callers of fillPrimitive, whatever they are called and
+		// however the handling of a named field with a value is split into functions
+		// (fillPrimitive itself: the function the fillPrimitive row above resolved to)
+		sinkFns := d4Funcs["fillPrimitive"]
+		if !o.Need(len(sinkFns) > 0, mapPkg+".fillPrimitive") {
 			return
 		}
-		r.Fn(core.FuncName(f))
-		sinks := core.Instrs(f, mp("fillPrimitive"))
-		o.Site(len(sinks), core.FuncName(f))
+		optsIdx := map[*ssa.Function]int{}
+		for _, sink := range sinkFns {
+			optsIdx[sink] = paramIndex(sink, paramOfType(sink, isOptsCtx))
+			if !o.Need(optsIdx[sink] >= 0, "the *fieldOptionsWithContext parameter of "+core.FuncName(sink)) {
+				return
+			}
+			if _, esc := callSitesOf(mapFuncs, sink); esc {
+				o.Unres("%s is used as a value: its callers cannot be enumerated", core.FuncName(sink))
+				return
+			}
+		}
 		isOptions := func(v ssa.Value) bool {
 			c, ok := core.Forward(v).(*ssa.Call)
 			return ok && core.Short(core.CalleeName(c)) == "(*"+mapPkg+".fieldOptionsWithContext).options"
@@ -819,10 +910,30 @@ func c05(r *core.Run) {
 			c, ok := v.(*ssa.Call)
 			return ok && core.Short(core.CalleeName(c)) == "lib/stringx.Contains" && isOptions(c.Call.Args[0])
 		})
-		for _, s := range sinks {
-			if w := requiresX(f, core.Is(s), empty, listed); w != nil {
-				o.Fail(posOf(s), "%s: fillPrimitive is reachable with a non-empty options list and a value that is not in it", core.FuncName(f))
+		n := 0
+		for _, f := range mapFuncs {
+			for _, s := range core.Instrs(f, func(in ssa.Instruction) bool {
+				c := core.AsCall(in)
+				if c == nil || staticCallee(c) == nil {
+					return false
+				}
+				_, isSink := optsIdx[staticCallee(c)]
+				return isSink
+			}) {
+				c := s.(ssa.CallInstruction)
+				if core.IsNil(core.Forward(c.Common().Args[optsIdx[staticCallee(c)]])) {
+					continue // no options to enforce
+				}
+				n++
+				o.Site(1, core.FuncName(f))
+				r.Fn(core.FuncName(f))
+				if w := requiresX(f, core.Is(s), empty, listed); w != nil {
+					o.Fail(posOf(s), "%s: fillPrimitive is reachable with a non-empty options list and a value that is not in it", core.FuncName(f))
+				}
 			}
+		}
+		if n == 0 {
+			o.Unres("no call of %s with field options found in %s", core.FuncName(sinkFns[0]), mapPkg)
 		}
 	})
 	r.Check("D4/K6/range-boundary-table", "validateNumberRange(fv, nr) returns an error exactly when fv < left, fv == left on an open left end, fv > right, or fv == right on an open right end (evaluated for all 36 combinations of the two flags and the two orderings); nil range accepts", func(o *core.O) {
